@@ -49,7 +49,8 @@ def _gen_task(r: Rng, with_events: bool) -> List[list]:
     steps = []
     for _ in range(r.range(1, 6)):
         d = r.choice(DUR)
-        e = r.range(1, 99) if (with_events and r.chance(1, 4)) else None
+        # payloads repeat on purpose (two tasks emitting the same value in one cycle are two events)
+        e = (r.choice([7, 7, 42]) if r.chance(1, 3) else r.range(1, 99)) if (with_events and r.chance(1, 4)) else None
         steps.append([d, e])
     return steps
 
